@@ -34,7 +34,7 @@ RULE = (
 )
 BOUNDS = {
     "quick": "21 solver cells (incl. 5 tight-budget cells mixing converging and non-converging problems) x 84 histories (4+16+64); battery of ~60 public calls x 2 repeats; 2 import styles",
-    "thorough": "pool of 5 problems, depth 3 (155 histories per cell)",
+    "thorough": "pool of 5-6 problems, depth 4 (780-1554 histories per cell)",
 }
 WALL_BUDGET = {"quick": 600, "thorough": 3000}
 ASSUMPTIONS = [
@@ -219,7 +219,7 @@ def cases(tier, seed):
         _REF = dict(pool.map(_reference, jobs, chunksize=1))
     out = []
     for c in cs:
-        for L in (1, 2, 3):
+        for L in ((1, 2, 3) if tier == "quick" else (1, 2, 3, 4)):
             for h in itertools.product(range(npools[c["id"]]), repeat=L):
                 out.append({"key": f"hist/{c['name']}/{''.join(map(str, h))}", "grp": "hist", "cell": c["id"], "hist": list(h), "tier": tier})
     out.append({"key": "battery/flat-vs-package", "grp": "styles"})
